@@ -318,15 +318,20 @@ def real_run(job):
     if mode == "sum":
         env["FP_CHECKSUM"] = "sum"
     env.update({"GOFLAGS": "-mod=mod", "GOPROXY": "off", "CARGO_NET_OFFLINE": "true"})
-    try:
-        p = subprocess.run([sys.executable, os.path.join(VERIF, "runtime", RUNTIME_DIR[lang], "run.py"), d],
-                           capture_output=True, text=True, timeout=900, env=env)
+    err = None
+    for limit in (900, 3600):       # a loaded machine is no verdict: one more, much longer, attempt
         try:
-            return json.loads(p.stdout)
-        except ValueError:
-            return json.loads(p.stdout.strip().split("\n")[-1])
-    except Exception as e:  # a runner failure is a tooling error, never a verdict
-        return {"runner_error": "%s: %s" % (type(e).__name__, str(e)[:300])}
+            p = subprocess.run([sys.executable, os.path.join(VERIF, "runtime", RUNTIME_DIR[lang], "run.py"), d],
+                               capture_output=True, text=True, timeout=limit, env=env)
+            try:
+                return json.loads(p.stdout)
+            except ValueError:
+                return json.loads(p.stdout.strip().split("\n")[-1])
+        except subprocess.TimeoutExpired as e:
+            err = e
+        except Exception as e:  # a runner failure is a tooling error, never a verdict
+            return {"runner_error": "%s: %s" % (type(e).__name__, str(e)[:300])}
+    return {"runner_error": "%s: %s" % (type(err).__name__, str(err)[:300])}
 
 
 def first_error(detail):
